@@ -11,14 +11,16 @@
        ([yp_tree], written top-down from the bindings alone), hence root = yp_root
        (C02_yellow_paper).
    These are statements about the tree-level algorithms (Hexary/Tree.v) with [troot] the
-   hex-prefix / RLP / "< 32 bytes embedded, root always hashed" encoding.  FULL STATEMENT
-   for the database-level machine (the root_hash attribute after every API call, direct or
-   batched, pruning or not): rests additionally on the write refinement D -> T, which is
-   exercised on every correspondence case (implementation root = D-level root =
-   troot keccak256 (T-level run) = yp_root keccak256 (mapping), all evaluated in Coq). *)
+   hex-prefix / RLP / "< 32 bytes embedded, root always hashed" encoding.  DATABASE LEVEL:
+   C02_D below — after every history of direct writes, pruning off or on, the root_hash
+   attribute of the D-level machine is yp_root of the contents (write refinement proved;
+   premises: no collision among / size bound on the bodies the history writes).  Histories
+   through squash_changes: correspondence (implementation root = D-level root =
+   troot keccak256 (T-level run) = yp_root keccak256 (mapping), evaluated in Coq on every case). *)
 From Coq Require Import List NArith Bool.
 From PyTrie.Base Require Import Bytes Result Nibbles Rlp Keccak.
-From PyTrie.Hexary Require Import Raw Tree Tree_aux Tree_map Tree_unique TreeRun.
+From PyTrie.Base Require Import AMap.
+From PyTrie.Hexary Require Import Raw Tree Tree_aux Tree_map Tree_unique TreeRun D D_read Refine_read Refine_write Refine_write_prune.
 From PyTrie.Hexary Require Tree_canon.
 Import ListNotations.
 
@@ -54,6 +56,22 @@ Theorem C02_yellow_paper : forall H ops J, ops_ok ops -> good_bindings J ->
   (forall q, nibs_ok q = true -> lookup J q = spec_run ops q) -> troot H (trun ops) = yp_root H J.
 Proof. exact Tree_unique.C02_yellow_paper. Qed.
 Print Assumptions C02_yellow_paper.
+
+(* database level: the root_hash attribute after any history of direct writes *)
+Theorem C02_D : forall H BNH, (forall x, length (H x) = 32%nat) -> BNH = H (rlp_encode (RStr [])) ->
+  forall (prune : bool) (ws : list wop),
+  cf H (hist_bodies H ws) -> Forall (fun b => (blen b < 2 ^ 64)%N) (hist_bodies H ws) ->
+  let ops := map top_of ws in
+  forall J, good_bindings J -> (forall q, nibs_ok q = true -> lookup J q = spec_run ops q) ->
+  t_root (snd (wrun H BNH ws (empty_trie BNH prune))) = yp_root H J.
+Proof.
+  intros H BNH Hlen Hbnh prune ws Hcf Hsmall ops J HJ Hlook. destruct prune.
+  - destruct (Refine_write_prune.C01_D_pruning H BNH Hlen Hbnh ws Hcf Hsmall) as (m & rc & Hrun & _ & _ & _ & _ & _ & Hroot).
+    rewrite Hrun. cbn [snd]. apply Hroot; assumption.
+  - destruct (Refine_write.C01_D_nonpruning_small H BNH Hlen Hbnh ws Hcf Hsmall) as (m & Hrun & _ & _ & _ & Hroot).
+    rewrite Hrun. cbn [snd]. apply Hroot; assumption.
+Qed.
+Print Assumptions C02_D.
 
 (* non-vacuity, and external anchors for my reading of the Yellow Paper: ethereum/tests
    trieanyorder vectors evaluated with the real Keccak-256 *)
